@@ -65,6 +65,16 @@ def set_identity_bounds(f, cls, ds):
             m.prepare_data(np.array([[0.0] * d, [1.0] * d]))
 
 
+GEN_THEOREMS = ['fusion_positions', 'fusion_category_choice', 'fusion_match_criterion_bin', 'fusion_W_get', 'fusion_W_get_model']
+
+
+def prepare(ctx):
+    """Translator tie (see gen_tie.py): FusionART's own methods are regenerated from the source on every run and proved
+    equal to the channel-wise definitions the property theorems are stated about"""
+    from .gen_tie import gen_prepare
+    gen_prepare(ctx, GEN_THEOREMS, 'FusionART.category_choice / match_criterion_bin with skip_channels, the W property and get_channel_position_tuples (ftrans -> ArtGen/Fusion.lean) = choiceSkip / the conjunction over the channels not skipped / fusedW of ArtModel/Fusion.lean')
+
+
 def run(ctx):
     cov = ctx.cov
     ctx.assumptions += [
